@@ -241,6 +241,11 @@ STANDIN_BOUND = {
     "phrases": "per language about 2 800 integers below 10^12 (all of 0..1200, 1900..2030, structured multiples of 10^3/10^6/10^9, 1 500 random "
                "ones from VERIF_SEED; pt below 10^6; de without the known 'eine' cases) spelled by tools/spell.py: text2digits == digits and the phrase "
                "inside a sentence is rewritten as one number; for C16 with one and two zero words in front",
+    "pairs": "EXHAUSTIVE over the pair space of the property: every (a, b) in [1,99] x [0,99] and joiner in {space, conjunction} for the seven languages "
+             "(19 800 phrases each; French without 'neuf' alone and without the word-ambiguous 'vingt quatre vingt' shapes): the rewriting is 'a [conj] b' or "
+             "the one number spelled by exactly those words (conjunction optional, glued forms compared by letters)",
+    "dictate": "digit dictation: every digit string of length 1..4 and 2 000 random ones of length 5..8 per language, said digit by digit: "
+               "zeros attach to the following non-zero digit, trailing zeros stand alone, nothing else is fused",
     "ordinals": "ordinals spelled by tools/spell.py (masculine singular): ranks 1..1200 plus structured and random ranks below 10^6 for en, fr, de, it, nl; "
                 "1..1999 for es (without the bare 'segundo'), 1..999 for pt: text2digits == digits + marker, and the same inside a sentence",
     "rows": "every word of the grammar tables of all seven languages, alone, through text2digits",
@@ -265,6 +270,38 @@ def standin(pid):
         ran.append({"search": m, "bound": STANDIN_BOUND[m], "cases": w.get("cases"), "found": w.get("kind") == "standin"})
         if w.get("kind") == "standin":
             return w, ran
+    if pid == "C08":
+        total = 0
+        for code in ["en", "fr", "es", "pt", "it", "de", "nl"]:
+            tsv = os.path.join(VERIF, "build", f"pairs_{code}.tsv")
+            with open(tsv, "w", encoding="utf-8") as f:
+                subprocess.run([sys.executable, os.path.join(VERIF, "tools", "spell.py"), "0", "pairs", code], stdout=f, text=True, timeout=300)
+            p = subprocess.run([wbin("standin"), "pairs", tsv], capture_output=True, text=True, timeout=900)
+            try:
+                w = json.loads(p.stdout.strip().split("\n")[-1])
+            except Exception:
+                continue
+            total += w.get("cases", 0) or 0
+            if w.get("kind") == "call":
+                ran.append({"search": "pairs/" + code, "bound": STANDIN_BOUND["pairs"], "cases": total, "found": True})
+                return w, ran
+        ran.append({"search": "pairs", "bound": STANDIN_BOUND["pairs"], "cases": total, "found": False, "exhaustive": True})
+        seed = int(os.environ.get("VERIF_SEED", "0") or 0)
+        total = 0
+        for code in ["en", "fr", "es", "pt", "it", "de", "nl"]:
+            tsv = os.path.join(VERIF, "build", f"dictate_{code}.tsv")
+            with open(tsv, "w", encoding="utf-8") as f:
+                subprocess.run([sys.executable, os.path.join(VERIF, "tools", "spell.py"), str(seed), "dictate", code], stdout=f, text=True, timeout=300)
+            p = subprocess.run([wbin("standin"), "pairs", tsv], capture_output=True, text=True, timeout=900)
+            try:
+                w = json.loads(p.stdout.strip().split("\n")[-1])
+            except Exception:
+                continue
+            total += w.get("cases", 0) or 0
+            if w.get("kind") == "call":
+                ran.append({"search": "dictate/" + code, "bound": STANDIN_BOUND["dictate"], "cases": total, "found": True})
+                return w, ran
+        ran.append({"search": "dictate", "bound": STANDIN_BOUND["dictate"], "cases": total, "found": False})
     if pid == "C04":
         seed = int(os.environ.get("VERIF_SEED", "0") or 0)
         total = 0
